@@ -138,6 +138,57 @@ pub fn c14_bitset_contains_insert_remove_len() {
     core::mem::forget(set);
 }
 
+/// remove_range(start..=end) with `start` in major `smaj` and `end` in major `emaj` (the majors
+/// are concrete so that the page walk is decided at symbolic-execution time; the offsets inside
+/// the pages are symbolic, so empty, single-element and whole-page ranges are all included)
+fn check_remove_range(m0: u32, m1: u32, smaj: u32, emaj: u32) {
+    let (mut set, s0, s1) = two_page_set(m0, m1);
+    let before_len = set.len();
+    let a: u16 = kani::any();
+    let b: u16 = kani::any();
+    let start = smaj * 512 + (a & 511) as u32;
+    let end = emaj * 512 + (b & 511) as u32;
+    set.remove_range(start..=end);
+    let probe: u32 = kani::any();
+    let in_range = start <= probe && probe <= end;
+    assert!(set.contains(probe) == (member(m0, m1, &s0, &s1, probe) && !in_range));
+    assert!(set.len() <= before_len);
+    if member(m0, m1, &s0, &s1, probe) && in_range {
+        assert!(set.len() < before_len);
+    }
+    kani::cover!(start == end && member(m0, m1, &s0, &s1, start), "single-element range removes a member");
+    core::mem::forget(set);
+}
+
+// @bound one remove_range(start..=end), start and end anywhere inside the first page (major 0) of the two-page layout {0, 2}, including empty and single-element ranges; membership of a symbolic probe and the cached length afterwards (did not finish in 420 s / ran out of 10 GB in the quick tier)
+// @tier thorough
+// @timeout 3000
+// @mem 30
+#[cfg_attr(kani, kani::proof)]
+#[cfg_attr(kani, kani::unwind(10))]
+pub fn c14_bitset_remove_range_within_first_page() {
+    check_remove_range(0, 2, 0, 0);
+}
+
+// @bound the same with start in the first page and end in the second page (major 2): the range spans the missing page
+// @tier thorough
+// @timeout 3000
+// @mem 30
+#[cfg_attr(kani, kani::proof)]
+#[cfg_attr(kani, kani::unwind(10))]
+pub fn c14_bitset_remove_range_across_pages() {
+    check_remove_range(0, 2, 0, 2);
+}
+
+// @bound the same with start in the missing major 1 and end in the second page
+// @tier thorough
+// @timeout 3000
+#[cfg_attr(kani, kani::proof)]
+#[cfg_attr(kani, kani::unwind(10))]
+pub fn c14_bitset_remove_range_from_missing_page() {
+    check_remove_range(0, 2, 1, 2);
+}
+
 // @tier thorough
 // @timeout 3000
 // @mem 30
